@@ -146,7 +146,8 @@ class Path:
         self.writes = []
         self.fresh_n = 0
         self.solver = z3.Solver()
-        self.solver.set("timeout", self.FEAS_TIMEOUT_MS)
+        from . import budget
+        self.solver.set("timeout", budget.ms(self.FEAS_TIMEOUT_MS))
         for a in self.axioms:
             self.solver.add(a)
         self.feas_checks = 0
